@@ -299,8 +299,43 @@ UNCONDITIONAL = ["mem_store", "mem_load", "new_reg", "jump", "selection_stmt", "
 SETTERS = {"set_uses_new", "set_writes_pred", "set_writes_mem", "set_reads_mem", "set_is_conditional", "set_branches"}
 
 
+def new_operand_reporting(ctx):
+    """whoever builds a .new register operand tells the extension (the NEW attribute has no other source): every function that asks for a
+    register with is_new set - by a constant or a value of its own - also reports a new-value token"""
+    idx = _get_idx(ctx)
+    n = 0
+    for fi in idx.funcs.values():
+        if ".Tests" in fi.module or fi.cls not in ("RZILTransformer", EXT, "HexagonTransformerExtension"):
+            continue
+        params = {a.arg for a in fi.node.args.args}
+        builds = []
+        for c in ast.walk(fi.node):
+            if not isinstance(c, ast.Call):
+                continue
+            t = call_tail(c)
+            val = None
+            if t == "hex_reg":
+                val = c.args[1] if len(c.args) > 1 else next((k.value for k in c.keywords if k.arg == "is_new"), None)
+            elif t == "Register" or call_name(c) == "Register":
+                val = next((k.value for k in c.keywords if k.arg == "is_new"), None)
+            if val is None or (isinstance(val, ast.Constant) and val.value is False):
+                continue
+            if isinstance(val, ast.Name) and val.id in params:
+                continue  # handed through: the caller decides (and reports)
+            builds.append(U(c)[:60])
+        if not builds:
+            continue
+        n += 1
+        reports = [U(c)[:70] for c in ast.walk(fi.node) if isinstance(c, ast.Call) and call_tail(c) == "set_token_meta_data" and c.args and isinstance(c.args[0], ast.Constant)
+                   and (c.args[0].value == "new_reg" or (c.args[0].value == "explicit_reg" and any(k.arg == "is_new" for k in c.keywords)))]
+        ctx.check(f"{fi.qual} builds a register that may be .new and reports it", bool(reports), "set_token_meta_data('new_reg') / ('explicit_reg', is_new=...)",
+                  f"builds {builds[:2]}, reports nothing: the NEW attribute is lost for these operands" if not reports else f"reports via {reports[:1]}", fn_where(idx, fi))
+    ctx.check("builders of .new operands found", n >= 3, ">= 3 (new_reg, explicit_reg, reg_alias)", str(n), "rzilcompiler/Transformer/RZILTransformer.py", nontrivial=False)
+
+
 @rule("R13.3", "C13", "construct <=> flag: exactly the callbacks of the attribute-relevant productions signal the construct (must-call on all paths, who-may-call)", min_instances=25)
 def r13_3(ctx):
+    new_operand_reporting(ctx)
     idx = _get_idx(ctx)
     gm = get_grammar(ctx.env)
     callers = {t: set() for t in WHO_MAY}
